@@ -77,7 +77,7 @@ impl Client {
         Some(Client { s, buf: vec![] })
     }
     pub fn send(&mut self, bytes: &[u8]) -> bool { self.s.write_all(bytes).is_ok() }
-    fn parse(buf: &[u8], pos: &mut usize) -> Option<Result<V, ()>> {
+    pub fn parse(buf: &[u8], pos: &mut usize) -> Option<Result<V, ()>> {
         // None = incomplete
         if *pos >= buf.len() { return None; }
         let t = buf[*pos];
